@@ -687,6 +687,12 @@ def _arg_combine(data, axis, argfunc, keepdims=False):
     vals = data["vals"]
     arg = data["arg"]
     if axis is None:
+        # Candidates arrive in block-grid order, which for N-d inputs is not the
+        # array's flat order; put them in flat-index order so that ties resolve
+        # to the first occurrence, as in NumPy.
+        order = np.argsort(arg.ravel(), kind="stable")
+        vals = vals.ravel()[order].reshape(vals.shape)
+        arg = arg.ravel()[order].reshape(arg.shape)
         local_args = argfunc(vals, axis=axis, keepdims=keepdims)
         vals = vals.ravel()[local_args]
         arg = arg.ravel()[local_args]
